@@ -812,6 +812,74 @@ def rand_tree(rng, depth, counter, named_levels=True):
     return nodes
 
 
+def _c03_hinted_case(rng, i, kinds):
+    """nesting trees whose containers have their own shape (`p: T as ()`, `p.0: U as {}`): named and tuple containers inside
+    each other, members addressed by name or position accordingly, and containers filled by #[ghosts(path@member: ..)] only"""
+    named = rng.random() < 0.6
+    root_named = named or rng.random() < 0.5
+    root_hint = '' if root_named == named else (' as {}' if root_named else ' as ()')
+    counter = [0]
+    entries = []       # (path string, type, hint)
+    fields = []        # Field
+    ghosts = []
+    fidx = [0]
+    flat = []
+
+    def container(path, shape_named, depth):
+        """emit the members of the container at `path` (a list of member strings); returns nothing"""
+        pos = 0
+        nleaves = rng.choice([0, 1, 1, 2]) if path else rng.choice([1, 2])
+        for _ in range(nleaves):
+            j = fidx[0]
+            fidx[0] += 1
+            fa = []
+            if path:
+                fa.append(Attr('child', '.'.join(path)))
+            if shape_named:
+                if not named or rng.random() < 0.4:
+                    fa.append(Attr('map', 'm%d' % j))
+            else:
+                fa.append(Attr('map', str(pos)))
+            pos += 1
+            rng.shuffle(fa)
+            fields.append(Field(('f%d' % j) if named else None, 'i32', fa))
+            flat.append((('f%d' % j) if named else str(j), '.'.join(path) if path else None, None))
+        nkids = 0 if depth >= 2 else rng.choice([0, 1, 1, 2] if path else [1, 1, 2])
+        kid_names = rng.sample(NODE_NAMES, nkids)
+        for kn in kid_names:
+            counter[0] += 1
+            name = kn if shape_named else str(pos)
+            pos += 1
+            kid_named = rng.random() < 0.65
+            if kid_named == named:
+                hint = rng.choice(['', ' as {}' if kid_named else ' as ()'])
+            else:
+                hint = ' as {}' if kid_named else ' as ()'
+            kp = path + [name]
+            entries.append(('.'.join(kp), 'T%d' % counter[0], hint))
+            before = len(fields)
+            container(kp, kid_named, depth + 1)
+            if len(fields) == before or rng.random() < 0.25:
+                # a container with no member of its own (or an extra entry): filled through #[ghosts]
+                for g in range(rng.choice([1, 2])):
+                    gname = ('g%d' % g) if kid_named else str(50 + g)
+                    ghosts.append('%s@%s: { gv%d() }' % ('.'.join(kp), gname, g))
+
+    container([], root_named, 0)
+    tnames = rng.sample(kinds, rng.choice([1, 2]))
+    attrs = [trait_attr(tn, 'A', root_hint) for tn in tnames]
+    attrs.append(Attr('child_parents', ', '.join('%s: %s%s' % e for e in entries)))
+    if ghosts:
+        attrs.append(Attr('ghosts', ', '.join(ghosts)))
+    rng.shuffle(attrs)
+    return Item('struct', 'S', 'named' if named else 'tuple', '', attrs, fields, {'gen': 'c03_hinted', 'flat': flat})
+
+
+def c03_hinted_cases(rng, n):
+    kinds = BASIC + [try_name(b) for b in BASIC]
+    return [_c03_hinted_case(rng, i, kinds) for i in range(n)]
+
+
 def c03_cases(rng, n):
     """flat structs over random child tries, fields in a random order (all interleavings reachable);
     parameterised / bare parents; struct-level ghosts addressed by child path"""
@@ -819,8 +887,10 @@ def c03_cases(rng, n):
     kinds = BASIC + [try_name(b) for b in BASIC]
     for i in range(n):
         r = rng.random()
-        if r < 0.65:
+        if r < 0.55:
             out.append(_c03_child_case(rng, i, kinds))
+        elif r < 0.7:
+            out.append(_c03_hinted_case(rng, i, kinds))
         elif r < 0.9:
             out.append(_c03_parent_case(rng, i, kinds))
         else:
@@ -852,10 +922,23 @@ def _c03_child_case(rng, i, kinds):
     rng.shuffle(flat)
     cpd = ', '.join('%s: %s' % ('.'.join(p), t.ty) for p, t in _walk(nodes))
     tnames = rng.sample(kinds, rng.choice([1, 2, 3]))
-    attrs = [trait_attr(tn, 'A', ' as {}' if not named else '') for tn in tnames] + [Attr('child_parents', cpd)]
+    # twin mode: a second counterpart B whose flattening goes through another path (dz); the instructions of A and B sit side by side
+    # on the same members, default and dedicated, in either order - the impls for A must follow A's tree whatever is written for B
+    twin = rng.random() < 0.3
+    attrs = [trait_attr(tn, 'A', ' as {}' if not named else '') for tn in tnames]
+    if twin:
+        attrs += [trait_attr(tn, 'B', ' as {}' if not named else '') for tn in tnames]
+        a_ded = rng.random() < 0.5
+        # validation checks a default #[child(p)] against every counterpart, shadowed or not: both entries list both path sets
+        # (with different types, so that taking the wrong entry shows)
+        cpd_b = ', '.join('%s: %s' % ('.'.join(p), t.ty.replace('T', 'U')) for p, t in _walk(nodes))
+        b_ded = (not a_ded) or rng.random() < 0.5          # at most one of the two is the default one
+        attrs += [Attr('child_parents', cpd + ', dz: DzA', ded='A' if a_ded else None), Attr('child_parents', 'dz: Dz, ' + cpd_b, ded='B' if b_ded else None)]
+    else:
+        attrs += [Attr('child_parents', cpd)]
     if rng.random() < 0.25:
         p, t = rng.choice(list(_walk(nodes)))
-        attrs.append(Attr('ghosts', '%s@gz: { 7 }' % '.'.join(p)))
+        attrs.append(Attr('ghosts', '%s@gz: { 7 }' % '.'.join(p), ded='A' if twin else None))
     if rng.random() < 0.15:
         attrs[0] = trait_attr(tnames[0], 'A', ' as {}' if not named else '', 'Er', '..Default::default()')
     rng.shuffle(attrs)
@@ -863,7 +946,7 @@ def _c03_child_case(rng, i, kinds):
     # a quarter of the cases spell the paths through a repeat(child) run: the opening field's #[child] is inherited by the fields that
     # follow; a field of another node keeps its own #[child] (own instructions take precedence), a plain field opts out with skip_repeat
     rep_path = None
-    use_repeat = rng.random() < 0.25 and any(path is not None for _, path, _ in flat)
+    use_repeat = (not twin) and rng.random() < 0.25 and any(path is not None for _, path, _ in flat)
     for (fname, path, ren) in flat:
         fa = []
         marks = []
@@ -876,34 +959,112 @@ def _c03_child_case(rng, i, kinds):
                 marks.append(Attr('skip_repeat'))
             elif rep_path is not None and (path != rep_path or rng.random() < 0.2):
                 fa.append(Attr('child', '.'.join(path)))
+        elif path is not None and twin:
+            v = rng.random()
+            if v < 0.4:
+                fa += [Attr('child', '.'.join(path), ded='A'), Attr('child', 'dz')]
+            elif v < 0.8:
+                fa += [Attr('child', '.'.join(path)), Attr('child', 'dz', ded='B')]
+            else:
+                fa.append(Attr('child', '.'.join(path), ded='A'))
         elif path is not None:
             fa.append(Attr('child', '.'.join(path)))
+        elif twin and rng.random() < 0.4:
+            fa.append(Attr('child', 'dz', ded='B'))
         if ren:
             fa.append(Attr('map', ren))
         rng.shuffle(fa)
         fields.append(Field(fname if named else None, 'i32', marks + fa))
     it = Item('struct', 'S', 'named' if named else 'tuple', '', attrs, fields,
-              {'gen': 'c03_child', 'repeat': use_repeat, 'tree': [('.'.join(p), t.ty) for p, t in _walk(nodes)],
+              {'gen': 'c03_child', 'repeat': use_repeat, 'twin': twin, 'tree': [('.'.join(p), t.ty) for p, t in _walk(nodes)],
                'flat': [(fname if named else str(j), '.'.join(path) if path else None, ren) for j, (fname, path, ren) in enumerate(flat)]})
     return it
 
 
+PARENT_FORMS = ['x, y', 'x, [map(yy)] y', '[parent(u, v)] inner: Inner, w', '[parent([parent(vendor, year)] core: Core)] base: Base, id',
+                '[parent(u)] inner, w', '[parent([parent(vendor)] core: Core)] base, id', 'x, [parent(y)] 0: T', '[map(a0)] 0, [map(a1)] 1',
+                'x, [parent(u, [parent(z)] deep: Deep)] inner: Inner']
+
+
+def parse_parent_form(text):
+    """`[instr(args)]* member [: Type]` items separated by top-level commas -> list of dicts {this, ty, map, kids}"""
+    import re as _r
+    items, depth, cur = [], 0, ''
+    for ch in text:
+        if ch in '([':
+            depth += 1
+        elif ch in ')]':
+            depth -= 1
+        if ch == ',' and depth == 0:
+            items.append(cur.strip())
+            cur = ''
+        else:
+            cur += ch
+    if cur.strip():
+        items.append(cur.strip())
+    out = []
+    for itx in items:
+        d = {'this': None, 'ty': None, 'map': None, 'kids': None}
+        rest = itx
+        while rest.startswith('['):
+            # matching bracket
+            dep = 0
+            for j, ch in enumerate(rest):
+                if ch == '[':
+                    dep += 1
+                elif ch == ']':
+                    dep -= 1
+                    if dep == 0:
+                        break
+            instr = rest[1:j].strip()
+            rest = rest[j + 1:].strip()
+            m = _r.match(r'(\w+)\((.*)\)$', instr, flags=_r.S)
+            if m and m.group(1) == 'parent':
+                d['kids'] = parse_parent_form(m.group(2))
+            elif m and m.group(1) == 'map':
+                d['map'] = m.group(2).strip()
+        if ':' in rest:
+            a, b = rest.split(':', 1)
+            d['this'], d['ty'] = a.strip(), b.strip()
+        else:
+            d['this'] = rest.strip()
+        out.append(d)
+    return out
+
+
 def _c03_parent_case(rng, i, kinds):
+    import re as _r
     named = rng.random() < 0.8
     tnames = rng.sample(kinds, rng.choice([1, 2]))
     attrs = [trait_attr(tn, 'A', ' as {}' if not named and rng.random() < 0.5 else '') for tn in tnames]
-    forms = ['x, y', 'x, [map(yy)] y', '[parent(u, v)] inner: Inner, w', '[parent([parent(vendor, year)] core: Core)] base: Base, id',
-             '[parent(u)] inner, w', '[parent([parent(vendor)] core: Core)] base, id', 'x, [parent(y)] 0: T', '[map(a0)] 0, [map(a1)] 1',
-             'x, [parent(u, [parent(z)] deep: Deep)] inner: Inner']
-    fields = [Field('k' if named else None, 'i32', []), Field('par' if named else None, 'P', [Attr('parent', rng.choice(forms))])]
+    forms = PARENT_FORMS
+
+    def renamed(form, suffix):
+        return _r.sub(r'\b([a-z][a-z0-9_]*)\b', lambda m: m.group(1) if m.group(1) in ('parent', 'map') else m.group(1) + suffix, form)
+
+    # twin mode: a second counterpart B flattens the same parent field differently; default and dedicated #[parent(..)] side by side
+    twin = rng.random() < 0.3
+    form_a = rng.choice(forms)
+    pattrs = [Attr('parent', form_a)]
+    if twin:
+        attrs += [trait_attr(tn, 'B', attrs[0].hint and ' as {}' or '') for tn in tnames]
+        form_b = renamed(rng.choice(forms), 'b')
+        if rng.random() < 0.5:
+            pattrs = [Attr('parent', form_a, ded='A'), Attr('parent', form_b)]
+        else:
+            pattrs = [Attr('parent', form_a), Attr('parent', form_b, ded='B')]
+        if rng.random() < 0.6:
+            pattrs.reverse()
+    fields = [Field('k' if named else None, 'i32', []), Field('par' if named else None, 'P', pattrs)]
+    form2 = None
     if rng.random() < 0.4:
-        import re as _r
-        f2 = _r.sub(r'\b([a-z][a-z0-9_]*)\b', lambda m: m.group(1) if m.group(1) in ('parent', 'map') else m.group(1) + '2', rng.choice(forms))
-        fields.append(Field('par2' if named else None, 'P2', [Attr('parent', f2)]))
+        form2 = renamed(rng.choice(forms), '2')
+        fields.append(Field('par2' if named else None, 'P2', [Attr('parent', form2)]))
     if rng.random() < 0.5:
         fields.append(Field('zf' if named else None, 'i16', [Attr('map', 'zz')] if rng.random() < 0.5 else []))
     rng.shuffle(fields)
-    return Item('struct', 'S', 'named' if named else 'tuple', '', attrs, fields, {'gen': 'c03_parent'})
+    return Item('struct', 'S', 'named' if named else 'tuple', '', attrs, fields,
+                {'gen': 'c03_parent', 'twin': twin, 'forms': {'par': form_a, 'par2': form2}})
 
 
 def _c03_bare_parent_case(rng, i, kinds):
@@ -2174,7 +2335,23 @@ def c02_cases(rng, n):
             elif r < 0.42:
                 spec['ghost'] = rng.choice(['dv%d()' % j, None])
                 va.append(gattr('ghost', default=spec['ghost']))
-            if rng.random() < 0.25 and spec['ghost'] is None and 'ghost' not in [a.name for a in va]:
+            force_no_member = False
+            if len(cps) == 2 and sh == 'named' and rng.random() < 0.35 and 'ghost' not in [a.name for a in va]:
+                # the counterparts see the variant in different forms: a #[type_hint] dedicated to one of them, alone or next to a
+                # default one (either order).  Payload fields then carry no member names, which is valid under both forms.
+                x = rng.choice(cps)
+                y = [c for c in cps if c != x][0]
+                if rng.random() < 0.4:
+                    va.append(Attr('type_hint', 'as ()', ded=x))
+                    spec['hints'] = {x: 'as ()', y: None}
+                else:
+                    pair = [Attr('type_hint', 'as ()'), Attr('type_hint', 'as {}', ded=x)]
+                    if rng.random() < 0.5:
+                        pair.reverse()
+                    va += pair
+                    spec['hints'] = {x: 'as {}', y: 'as ()'}
+                force_no_member = True
+            elif rng.random() < 0.25 and spec['ghost'] is None and 'ghost' not in [a.name for a in va]:
                 spec['hint'] = rng.choice(['as {}', 'as ()', 'as Unit'])
                 va.append(Attr('type_hint', spec['hint']))
             fs = []
@@ -2196,6 +2373,8 @@ def c02_cases(rng, n):
                         member = None
                     else:
                         member = ('k%d' % q) if r2 < 0.5 else None
+                    if force_no_member:
+                        member = None
                     if member is not None and r2 < 0.3:
                         fa.append(mattr('map', member=member, expr=rng.choice(['~ + 1', '~.clone()', 'h(~)'])))
                     elif member is not None:
@@ -2208,7 +2387,7 @@ def c02_cases(rng, n):
             # ghost payload fields of the counterpart variant: default and dedicated #[ghosts] instructions, in either order
             spec['vghosts'] = []
             cshape = {'as {}': 'named', 'as ()': 'tuple', 'as Unit': 'unit'}.get(spec['hint'], sh)
-            if (sh != 'unit' and cshape == sh and spec['ghost'] is None and not any(a.name == 'ghost' for a in va)
+            if (sh != 'unit' and cshape == sh and not spec.get('hints') and spec['ghost'] is None and not any(a.name == 'ghost' for a in va)
                     and not use_perm and not any(a.name in GHOSTS for f in fs for a in f.attrs) and rng.random() < 0.3):
                 entry = 'gs' if sh == 'named' else str(len(fs))
                 deds = rng.choice([[None], [rng.choice(cps)], [None, rng.choice(cps)], [rng.choice(cps), None], [None, cps[-1]]])
@@ -2240,49 +2419,96 @@ def c02_cases(rng, n):
 # C09: literal / pattern enums over integer and string counterparts
 # ---------------------------------------------------------------------------------------------
 def c09_cases(rng, n):
+    """enums mapped to one or two primitive counterparts; every variant carries a literal or a pattern, in default form, in a form
+    dedicated to one counterpart, or both (either order: the dedicated one must win for its counterpart, the default one for the other)"""
     out = []
     for i in range(n):
-        strs = rng.random() < 0.3
-        cp = rng.choice(['&str', 'String'] if False else ['StrT']) if strs else rng.choice(['i32', 'u8', 'i64'])
-        names = rng.sample(['from_owned', 'from_ref', 'try_from_owned', 'owned_into', 'ref_into', 'owned_try_into', 'map', 'from', 'into', 'try_map'], rng.choice([1, 2, 3]))
-        taken = set()
+        strs = rng.random() < 0.25
+        if strs:
+            cps = ['StrT']
+        else:
+            cps = rng.sample(['i32', 'u8', 'i64'], 2 if rng.random() < 0.45 else 1)
         attrs = []
         has_default = rng.random() < 0.6
-        for nm in names:
-            ks = set(kinds_of(nm))
-            if ks & taken:
-                continue
-            taken |= ks
-            attrs.append(trait_attr(nm, cp, '', 'Er', '_ => dflt()' if has_default else ''))
+        for cp in cps:
+            names = rng.sample(['from_owned', 'from_ref', 'try_from_owned', 'owned_into', 'ref_into', 'owned_try_into', 'map', 'from', 'into', 'try_map'], rng.choice([1, 2, 3]))
+            taken = set()
+            for nm in names:
+                ks = set(kinds_of(nm))
+                if ks & taken:
+                    continue
+                taken |= ks
+                attrs.append(trait_attr(nm, cp, '', 'Er', '_ => dflt()' if has_default else ''))
+        rng.shuffle(attrs)
         vs = []
-        spec = []
+        specs = {cp: [] for cp in cps}
         k = rng.randrange(1, 6)
         lits = rng.sample(range(0, 12), k) if rng.random() < 0.8 else [rng.randrange(0, 3) for _ in range(k)]
+
+        def new_pat(cp):
+            if strs:
+                return rng.choice(['_', '"s1" | "s2"', '"zz"'])
+            a = rng.randrange(0, 10)
+            return rng.choice(['_', '%d..=%d' % (a, a + rng.randrange(0, 5)), '%d | %d' % (a, a + 2), '%d..' % a, 'i32::MIN..=-1' if cp == 'i32' else '200..=255'])
+
         for j in range(k):
             r = rng.random()
             va = []
-            lit = pat = None
-            if r < 0.55:
+            eff = {cp: (None, None) for cp in cps}      # counterpart -> (literal, pattern) in effect
+            into_expr = None
+            mode = rng.random()
+            if len(cps) == 2 and mode < 0.6:
+                if rng.random() < 0.6:
+                    # default + dedicated of the same instruction, either order
+                    ded_cp = rng.choice(cps)
+                    if r < 0.6:
+                        d, dd = str(lits[j]), str(lits[j] + 20 + j)
+                        pair = [Attr('literal', d), Attr('literal', dd, ded=ded_cp)]
+                        for cp in cps:
+                            eff[cp] = (dd if cp == ded_cp else d, None)
+                    else:
+                        d, dd = new_pat(None if strs else 'u8'), new_pat(ded_cp)
+                        pair = [Attr('pattern', d), Attr('pattern', dd, ded=ded_cp)]
+                        for cp in cps:
+                            eff[cp] = (None, dd if cp == ded_cp else d)
+                    if rng.random() < 0.6:
+                        pair.reverse()
+                    va += pair
+                else:
+                    # dedicated only, one per counterpart (instructions may differ), either order
+                    ded = []
+                    for cp in cps:
+                        if rng.random() < 0.6:
+                            l = str(lits[j] + (30 if cp == cps[1] else 0))
+                            ded.append(Attr('literal', l, ded=cp))
+                            eff[cp] = (l, None)
+                        else:
+                            pt = new_pat(cp)
+                            ded.append(Attr('pattern', pt, ded=cp))
+                            eff[cp] = (None, pt)
+                    rng.shuffle(ded)
+                    va += ded
+            elif r < 0.55:
                 lit = ('"s%d"' % lits[j]) if strs else str(lits[j])
                 va.append(Attr('literal', lit))
+                for cp in cps:
+                    eff[cp] = (lit, None)
             elif r < 0.9:
-                if strs:
-                    pat = rng.choice(['_', '"s1" | "s2"', '"zz"'])
-                else:
-                    a = rng.randrange(0, 10)
-                    pat = rng.choice(['_', '%d..=%d' % (a, a + rng.randrange(0, 5)), '%d | %d' % (a, a + 2), '%d..' % a, 'i32::MIN..=-1' if cp == 'i32' else '200..=255'])
+                pat = new_pat(cps[0])
                 va.append(Attr('pattern', pat))
-                if rng.random() < 0.5:
-                    va.append(Attr('into', '{ conv%d() }' % j))
-                    spec_into = 'conv%d()' % j
-            v = Variant('V%d' % j, 'unit', [], va)
-            into_expr = None
-            for a in va:
-                if a.name == 'into':
-                    into_expr = a.args[1:-1].strip()
-            spec.append({'name': 'V%d' % j, 'lit': lit, 'pat': pat, 'into': into_expr})
-            vs.append(v)
-        it = Item('enum', 'E', 'named', '', attrs, vs, {'gen': 'c09', 'spec': spec, 'default': has_default, 'cp': cp})
+                for cp in cps:
+                    eff[cp] = (None, pat)
+            if any(e[1] is not None for e in eff.values()) and rng.random() < 0.5:
+                va.append(Attr('into', '{ conv%d() }' % j))
+                into_expr = 'conv%d()' % j
+                if any(e[0] is not None for e in eff.values()):
+                    # a literal in effect for one counterpart together with a member instruction is outside the implemented arms
+                    va.pop()
+                    into_expr = None
+            vs.append(Variant('V%d' % j, 'unit', [], va))
+            for cp in cps:
+                specs[cp].append({'name': 'V%d' % j, 'lit': eff[cp][0], 'pat': eff[cp][1], 'into': into_expr})
+        it = Item('enum', 'E', 'named', '', attrs, vs, {'gen': 'c09', 'specs': specs, 'spec': specs[cps[0]], 'default': has_default, 'cp': cps[0], 'cps': cps})
         out.append(it)
     return out
 
